@@ -124,7 +124,7 @@ Fixpoint declare_missing (fv : list (sym * option sort)) : M :=
 
 (* decorator clear_pending_pop: if self.pending_pop: self.pending_pop = False; self.pop() *)
 Definition clear_pending : M := guard (fun w =>
-  if pending w then seq (set_pending false) (seq w_pop_level (emit (CPop 1))) w else (w, [])).
+  if pending w then seq (set_pending false) (seq (emit (CPop 1)) w_pop_level) w else (w, [])).
 
 Fixpoint repeat_m (n : nat) (a : M) : M :=
   match n with 0 => ret | S k => seq a (repeat_m k a) end.
@@ -135,11 +135,12 @@ Definition w_reset_record : M := guard (fun w => (mkW [[]] [[]] (pending w) fals
 Definition add_assertion (f : form) : M :=
   seq clear_pending
       (seq (declare_missing_sorts (fsorts f)) (seq (declare_missing (fva f)) (emit (CAssert f)))).
-(* for _ in range(levels): append / pop;  then the command *)
+(* push: for _ in range(levels): append;  then the command *)
 Definition push (n : nat) : M :=
   seq clear_pending (seq (repeat_m n w_push_level) (emit (CPush n))).
+(* pop: the command first; the record follows only what the solver accepted *)
 Definition pop (n : nat) : M :=
-  seq clear_pending (seq (repeat_m n w_pop_level) (emit (CPop n))).
+  seq clear_pending (seq (emit (CPop n)) (repeat_m n w_pop_level)).
 Definition solve : M := seq clear_pending (emit CCheckSat).
 Definition reset_assertions : M :=
   seq clear_pending (seq (emit CResetAssertions) w_reset_record).
